@@ -18,4 +18,5 @@ CHECK = {'title': 'The fan receives the nearest value it supports',
  'level_note': 'bounded: key universes of 8/12 keys and a 3-value output alphabet; binary-search behaviour depends only on the order structure of '
                'keys, which these universes cover (adjacent keys, even/odd gaps, range ends)',
  'runs': [{'pkg': 'internal/util', 'test': 'TestVX_C12a', 'shards_quick': 4, 'shards_thorough': 16},
-          {'pkg': 'internal/controller', 'test': 'TestVX_C12b', 'shards_quick': 12, 'shards_thorough': 16}]}
+          {'pkg': 'internal/controller', 'test': 'TestVX_C12b', 'shards_quick': 12, 'shards_thorough': 16},
+          {'pkg': 'internal/controller', 'test': 'TestVX_C12init', 'shards_quick': 7, 'shards_thorough': 7}]}
